@@ -113,6 +113,19 @@ func main() {
 					}
 				}
 				target := hlib.Pick(rng, live)
+				// a member that is in the middle of its own departure (state Leaving: it still answers lookups) or
+				// has just departed (Left) is asked as well
+				var parked uint64
+				parkedState := ""
+				if !race && len(live) >= 2 && rng.Chance(25) {
+					parked = hlib.Pick(rng, live)
+					parkedState = "Leaving"
+					if rng.Chance(30) {
+						parkedState = "Left"
+					}
+					s.Do("setstate", ringh.U(parked), parkedState)
+					run.Count("state:member-" + parkedState)
+				}
 				var res string
 				if race {
 					if rng.Chance(60) {
@@ -136,6 +149,9 @@ func main() {
 					res = s.Do("reqjoin", ringh.U(target), ringh.U(j))
 				}
 				run.Case(hlib.F("%s|%v|%d|%d", tag, members, target, j))
+				if parkedState != "" {
+					s.Do("setstate", ringh.U(parked), "Active")
+				}
 				if strings.HasPrefix(res, "ok:") {
 					// release the membership lock so that further requests see an Active node again
 					for _, m := range live {
